@@ -16,8 +16,10 @@
  4. TRACE   TLC validates verdict = Accept(d) etc. on the records
             (spec/Gate_Trace.tla); Python only counts and reports
 
-Both tiers run the whole space through the in-process gate (it takes seconds);
-the tiers differ in the size of the process-level sample.
+thorough runs the whole space through the in-process gate and 960 packages through
+the command; quick runs every conforming descriptor and 8 seeded members (kind subset
+x shape) of every stratum (violated clause, factory kind, element), 32 through the
+command.
 
 Interpretation choices
  * A violation is one clause of the CODE of rule_01..rule_11.  rule_03's text says
@@ -42,7 +44,8 @@ import random
 
 from vlib import core, tlc
 
-CLI_SAMPLE = {'quick': 48, 'thorough': 960}
+CLI_SAMPLE = {'quick': 32, 'thorough': 960}
+PER_STRATUM_QUICK = 8
 
 
 def _tlc(chk, name, module, cfg_kwargs, workers, **kw):
@@ -92,6 +95,22 @@ def dkey(d):
 
 def signature(d, ev):
     return f'viol={d["viol"]}@{d["pos"]["k"]}/{d["pos"]["e"]}:kinds={"+".join(sorted(d["kinds"])) or "-"}:shape={d["shape"]}:{ev}'
+
+
+def stratified(cases, per, rnd):
+    '''quick tier: every conforming descriptor, the factory-less one, and `per` seeded members
+    (kind subset x shape) of every stratum (violated clause, factory kind, element)'''
+    strata = {}
+    for d in cases:
+        strata.setdefault((d['viol'], d['pos']['k'], d['pos']['e']), []).append(d)
+    out = []
+    for key in sorted(strata):
+        members = strata[key]
+        if key[0] in ('none', 'no_factory') or len(members) <= per:
+            out += members
+        else:
+            out += rnd.sample(members, per)
+    return out
 
 
 def choose_cli(cases, n, rnd):
@@ -160,6 +179,9 @@ def run(pid, tier, seed, replay=None):
     if names - covered:
         raise core.Machinery(f'vacuous: no descriptor carries {sorted(names - covered)}')
     # 3 + 4
+    total = len(cases)
+    if tier != 'thorough':
+        cases = stratified(cases, PER_STRATUM_QUICK, rnd)
     cli = choose_cli(cases, CLI_SAMPLE.get(tier, CLI_SAMPLE['quick']), rnd)
     jobs = [{'id': i + 1, 'd': d, 'cli': i in cli} for i, d in enumerate(cases)]
     rows, recs = execute(chk, pid, jobs)
@@ -188,6 +210,7 @@ def run(pid, tier, seed, replay=None):
     bad_ids = {r[1] for r in rows['CLAUSE'] if r[3] == 'verify'}
     pinned_ids = {dkey(d) for d, _ in disagree}
     chk.counters.update(
+        descriptors_enumerated=total,
         descriptors=len(cases),
         conforming=n['conforming'],
         violating=n['violating'],
@@ -215,10 +238,11 @@ def run(pid, tier, seed, replay=None):
         'generated engines use the factory/bot pattern (scan.deprecated_factories); environment stubs: virtual reactor, svg writer, db.targets',
     ]
     return chk.finish(
-        'cases = every descriptor TLC enumerates (kind subset x shape x rule clause x applicable position, plus the conforming ones); each is '
+        'cases = the descriptors TLC enumerates (kind subset x shape x rule clause x applicable position, plus the conforming ones; thorough: all, '
+        'quick: all conforming + 8 seeded members of every (clause, kind, element) stratum); each is '
         'written to disk as a package tree and judged by the real _scan/_verify (all) and the command (sample); TLC validates the verdicts. '
         'non-trivial = distinct descriptors materialised and judged (all of them: every one exercises all eleven rules)',
-        exhaustive=True,
+        exhaustive=(tier == 'thorough'),
     )
 
 
